@@ -22,8 +22,9 @@ COMPONENTS = {"schemas": {
     "Out": {"type": "object", "required": ["v"], "properties": {"v": {"type": "integer"}}}}}
 SERVED = {"model": ("application/json", json.dumps({"v": 1}).encode()), "text": ("text/plain", b"hello"), "none": (None, b""),
           "list": ("application/problem+json", json.dumps([{"v": 1}, {"v": 2}]).encode()), "int": ("application/json", b"5"),
-          "file": ("application/octet-stream", b"\x00\x01bytes"), "x": ("text/plain", b"teapot"), "t0int": ("application/json", b"5")}
-EXPECT_PARSED = {"model": "model:Out", "text": "text", "none": "None", "list": "list:model:Out", "int": "int", "file": "file", "None": "None", "t0int": "None"}
+          "file": ("application/octet-stream", b"\x00\x01bytes"), "x": ("text/plain", b"teapot"), "t0int": ("application/json", b"5"),
+          "const": ("application/json", b'"accepted"'), "ndjson": ("text/x-ndjson", b'{"a": 1}\n{"a": 2}\n')}
+EXPECT_PARSED = {"model": "model:Out", "text": "text", "none": "None", "list": "list:model:Out", "int": "int", "file": "file", "None": "None", "t0int": "None", "const": "text", "ndjson": "text"}
 
 
 def body_spec(b: str):
@@ -48,7 +49,10 @@ def resp_spec(r: dict) -> dict:
                "int": {"application/json": {"schema": {"type": "integer"}}},
                "file": {"application/octet-stream": {"schema": {"type": "string", "format": "binary"}}},
                # a media type listed without a schema (only an example) before one that has a schema
-               "t0int": {"text/plain": {"example": "5"}, "application/json": {"schema": {"type": "integer"}}}}[how]
+               "t0int": {"text/plain": {"example": "5"}, "application/json": {"schema": {"type": "integer"}}},
+               "const": {"application/json": {"schema": {"const": "accepted"}}},
+               # a text media type whose subtype ends in the letters "json" without being JSON (newline-delimited JSON)
+               "ndjson": {"text/x-ndjson": {"schema": S}}}[how]
     return {"description": "d", **({"content": content} if content else {})}
 
 
